@@ -462,8 +462,35 @@ def intval_cases(tier):
     return out
 
 
+def dupdoc_cases(tier):
+    """round 5 (class of seed C10-8, so far only reached by one corpus case and the 6 % clash stream): two DIFFERENT objects
+    with one identifier inside ONE stored document - as siblings, the second below anonymous nodes, the first already known
+    to the storage, under every composite class with two operands.  The code must refuse (RuntimeError, nothing written for
+    the parent); a store that succeeds must load back the same pulse, which it cannot"""
+    out = []
+    a = dict(k='Constant', id='x', dur=4, amps=[['A', 1]])
+    b = dict(k='Constant', id='x', dur=4, amps=[['A', -1]])
+
+    def add(label, nodes, roots, ops):
+        nodes = [dict(n) for n in nodes]
+        for nd in nodes:
+            nd.setdefault('id', None)
+        out.append({'kind': 'store', 'nodes': nodes, 'roots': roots, 'ops': ops, 'backend': G.BACKENDS[len(out) % 3],
+                    'flags': ['dup_id', 'dupdoc'], 'label': 'dupdoc:' + label})
+    add('siblings', [a, b, dict(k='Sequence', id='s', subs=[0, 1])], [2], [[0, 0]])
+    add('second-below-anonymous', [a, b, dict(k='Repetition', body=1, count=2), dict(k='Sequence', id='s', subs=[0, 2])], [3], [[0, 0]])
+    add('both-below-anonymous', [a, b, dict(k='Repetition', body=0, count=1), dict(k='TimeReversal', inner=1),
+                                 dict(k='Sequence', id='s', subs=[2, 3, 2])], [4], [[0, 0]])
+    add('first-stored-before', [a, b, dict(k='Sequence', id='s', subs=[0, 1])], [0, 2], [[0, 0], [0, 1]])
+    add('second-stored-before', [a, b, dict(k='Sequence', id='s', subs=[0, 1])], [1, 2], [[0, 0], [0, 1]])
+    add('arithmetic-atomic', [a, b, dict(k='ArithmeticAtomic', id='s', lhs=0, rhs=1, op='-')], [2], [[0, 0]])
+    add('atomic-multi', [a, dict(b, amps=[['B', -1]]), dict(k='AtomicMulti', id='s', subs=[0, 1])], [2], [[0, 0]])
+    add('same-object-twice-control', [a, dict(k='Sequence', id='s', subs=[0, 0])], [1], [[0, 0]])
+    return out
+
+
 def round5_cases(tier):
-    return exprobj_cases(tier) + intval_cases(tier)
+    return exprobj_cases(tier) + intval_cases(tier) + dupdoc_cases(tier)
 
 
 def round4_cases(tier):
